@@ -12,7 +12,7 @@ from __future__ import annotations
 from ..model import load_model
 from ..harness import partition, valuations
 from .. import spec
-from ..evalengine import (depth1_instances, depth2_instances, eval_case, pmap, param_class,
+from ..evalengine import (depth1_instances, depth2_instances, constant_child_instances, eval_case, pmap, param_class,
                           region_class)
 from ..structure import check_eager_evaluate
 
@@ -58,7 +58,7 @@ def check(rep):
     inst2 = depth2_instances(model, tier)
     coarse = partition(model, "quick")
     cases = []
-    for tree, label in inst1:
+    for tree, label in inst1 + constant_child_instances(model, tier):
         names = spec.variables(tree)
         use = atoms if len(names) <= 2 else coarse
         for val in valuations(names, use):
